@@ -35,6 +35,18 @@ func BuildMapCodec(p CodecBuilder, registry CodecRegistry, typ reflect.Type, tag
 	if err != nil {
 		return nil, fmt.Errorf("failed to find codec for map value %s. %w", typ.Elem().Name(), err)
 	}
+	for vc := valueCodec; ; {
+		// A value written as repeated fields cannot be told apart from the
+		// next map entry
+		if _, ok := vc.(ProtoSliceWrapper); ok {
+			return nil, fmt.Errorf("maps of proto compatible slices of structs or strings are not supported")
+		}
+		pw, ok := vc.(PointerWrapper)
+		if !ok {
+			break
+		}
+		vc = pw.Underlying
+	}
 
 	c := MapCodec{
 		keyCodec:   keyCodec,
